@@ -150,7 +150,7 @@ def rule_entropy(S, res):
                     continue  # function of other secrets of the same kind (xor offsets)
                 else:
                     res.bad("R6.1", "%s|%s" % (fn, kind), "a %s is built from a value that is neither fresh private randomness nor derived from another %s" % (kind, kind), where(b, bi, si))
-    res.floor("secret_constructions", n_sec, 4)
+    res.floor("secret_constructions", n_sec, 2)
     # (3) seeds of deterministic generators
     n_seed = 0
     for k, b in engine_bodies(fg):
@@ -202,7 +202,7 @@ def rule_entropy(S, res):
                     res.ok("R6.1", inst, where(b, bi), "seed sources: %s" % ", ".join(sorted(src)))
             else:
                 res.bad("R6.1", inst, "the seed of a generator is not derived from randomness, an OT output or a coin toss (constant / public data)", where(b, bi))
-    res.floor("generator_seed_sites", n_seed, 5)
+    res.floor("generator_seed_sites", n_seed, 3)
     # (4) the OT helper generators are created with AesRng::new()
     for fn in ("polytune::ot::kos_ot_sender", "polytune::ot::kos_ot_receiver"):
         got = 0
@@ -418,7 +418,7 @@ def rule_delta_declass(S, res):
     for (bk, l, f), ty in fg.field_ty.items():
         if ty.lstrip("&") == T_DELTA and bk in fg.bodies and "fpre" not in bk and "bench" not in bk:
             seeds.append((bk, l, f))
-    res.floor("delta_typed_values", len(seeds), 20)
+    res.floor("delta_typed_values", len(seeds), 10)
     eng = {k for k, b in engine_bodies(fg)}
     n_san = defaultdict(int)
 
@@ -490,7 +490,7 @@ def rule_delta_declass(S, res):
                     witness=[fg.describe_edge(e) for e in fg.path_to(reach, hit[0])[-10:]])
         else:
             res.ok("R6.4", inst, fl(s.sp), "payload not reachable from Delta except through a sanitizer")
-    res.floor("send_sites_checked_for_delta", n, 20)
+    res.floor("send_sites_checked_for_delta", n, 10)
     res.count("delta_declassifications", dict(n_san))
     if not bad:
         res.ok("R6.4", "delta|all-sends", "", "%d send sites: Delta reaches none of the payloads except through %s" % (n, ", ".join(sorted(n_san))))
@@ -518,7 +518,7 @@ def rule_label_declass(S, res):
             for si, st in enumerate(blk["s"]):
                 if st["k"] == "assign" and st["r"]["k"] == "agg" and st["r"].get("adt") == T_LABEL and st["r"]["ops"][0]["k"] != "const" and "data_types" not in b.owner:
                     seeds.append(fg.node_of_place(k, st["p"]))
-    res.floor("label_sources", len(seeds), 4)
+    res.floor("label_sources", len(seeds), 2)
     n_sel = [0]
 
     def edge_ok(e):
@@ -561,6 +561,6 @@ def rule_label_declass(S, res):
             bad += 1
             res.bad("R6.4", "%s|%s|zero-label" % (s.body.owner.rsplit("::", 1)[-1], lab), "a garbler's wire label can reach the payload of %r outside an AEAD row and without the select `label ^ (bit & Delta)`: the evaluator would learn both labels of a wire (their XOR is Delta)" % lab, fl(s.sp),
                     witness=[fg.describe_edge(e) for e in fg.path_to(reach, hit[0])[-10:]])
-    res.floor("sends_checked_for_labels", n, 5)
+    res.floor("sends_checked_for_labels", n, 3)
     if not bad:
         res.ok("R6.4", "labels|all-sends", "", "own wire labels reach no payload except through garble::encrypt / key derivation or the select operator Label ^ Delta (%d select site(s))" % n_sel[0])
